@@ -3,7 +3,7 @@
   does to it: used for the proofs about grid addition, where three registries are filled by
   loops.
 -/
-import PyTough.Proofs.GridSpec
+import PyTough.Proofs.GridMinc
 namespace Proofs.Grid
 open Py Model Model.Grid Model.Grid.World
 
